@@ -35,7 +35,7 @@ def parseCfg (s : String) : Option (Cfg Nat) :=
 
 def showRej : Rej → String
   | .nokeyheight => "nokeyheight" | .nopeers => "nopeers" | .few => "few" | .badkey => "badkey"
-  | .sig => "sig" | .payload => "payload"
+  | .sig => "sig" | .payload => "payload" | .initialized => "initialized"
 
 def showOut : Out → String
   | .ok => "ok" | .skip => "skip" | .verified => "verified" | .storedVerified => "stored-verified"
@@ -105,7 +105,7 @@ def parseHdr (tok : String) : Option (Hdr String) :=
 
 def showRej : Rej → String
   | .noconsensus => "noconsensus" | .scripthash => "scripthash" | .witness => "witness"
-  | .noscript => "noscript" | .contract => "contract" | .nowitness => "nowitness"
+  | .noscript => "noscript" | .contract => "contract" | .nowitness => "nowitness" | .initialized => "initialized"
 
 def showOut : Out → String
   | .ok => "ok" | .reject r => "reject:" ++ showRej r
